@@ -1,4 +1,6 @@
 """Shared machinery of the checks: build, run both sides, diff, evidence."""
+import sys as _sys
+_sys.set_int_max_str_digits(0)
 import fcntl, hashlib, json, os, random, re, subprocess, sys, time
 
 ROOT = os.path.dirname(os.path.dirname(os.path.abspath(__file__)))
